@@ -7,3 +7,7 @@ include!("/repo/src/bin/mstsc-rs.rs");
 pub fn verif_fast_bitmap_transfer(buffer: &mut Vec<u32>, width: usize, bitmap: BitmapEvent) -> RdpResult<()> {
     fast_bitmap_transfer(buffer, width, bitmap)
 }
+
+pub fn verif_launch_rdp_thread<S: 'static + Read + Write + Send>(handle: usize, rdp_client: Arc<Mutex<RdpClient<S>>>, sync: Arc<AtomicBool>, bitmap_channel: Sender<BitmapEvent>) -> RdpResult<JoinHandle<()>> {
+    launch_rdp_thread(handle, rdp_client, sync, bitmap_channel)
+}
